@@ -28,7 +28,7 @@ def run(ctx):
                 'wraps incl. first/last sample) x phase_step in {1.5pi,2.55,1.45} x return_good in {False,True} + the '
                 'Cycles container, compared with the model by block hash; plus long synthetic phases and 2-3 column '
                 'input; non-trivial = the series contains at least one wrap' % (min(lengths), max(lengths)))
-    ctx.proof(extra=['props/Prop_Tie_Cycles.v'])  # translation tie: program regenerated from the source + refinement theorems
+    ctx.proof(extra=['props/Prop_Tie_Cycles.v', 'props/Prop_Tie_Wave.v'])  # translation tie: program regenerated from the source + refinement theorems
     f12, _, bad = cvx.enumerate_domain(ctx, lengths, CFGS)
     ctx.exhaustive = True
     report(ctx, f12)
